@@ -1136,6 +1136,160 @@ RS.explanation += (' Shape tolerance: a private same-module helper that polls wa
                    'the path clauses of R1 follow only paths that are consistent for one answer.')
 
 
+# C13.R11, shape tolerance: the report consumed inside a closure of an iterator chain
+_R11_FIELD = 'process_state_changed'
+_R11_SELECTORS = {'filter': re.compile(r'(^|::)iter::traits::iterator::Iterator::filter$'),
+                  'filter_map': re.compile(r'(^|::)iter::traits::iterator::Iterator::filter_map$')}
+_R11_NEXT = [re.compile(r'(^|::)iter::traits::iterator::Iterator::next$')]
+_R11_FOR_EACH = [re.compile(r'(^|::)iter::traits::iterator::Iterator::for_each$')]
+
+
+def _r11_reads_report(st):
+    return st['k'] == 'assign' and st['rv']['k'] == 'use' and any(
+        (pl.get('p') or []) and isinstance(pl['p'][-1], dict) and pl['p'][-1].get('f') == _R11_FIELD for pl in Q.rvalue_places(st['rv']))
+
+
+def _r11_copies(c, seeds):
+    """locals that hold an unmodified copy of one of the seed locals"""
+    s = set(seeds)
+    changed = True
+    while changed:
+        changed = False
+        for _, _, st in c.stmts():
+            if st['k'] == 'assign' and Q.is_plain(st['lhs']) and st['lhs']['l'] not in s and st['rv']['k'] == 'use':
+                pl = Q.operand_place(st['rv']['o'])
+                if pl is not None and Q.is_plain(pl) and pl['l'] in s:
+                    s.add(st['lhs']['l'])
+                    changed = True
+    return s
+
+
+def _r11_selector_kind(c, loc_, true_targets):
+    """How the closure `c` hands the report (local loc_) to the iterator adapter it is given to:
+    'filter'      its bool result IS the report (unmodified: a negated or combined flag is not accepted),
+    'filter_map'  its Option result is Some on every path where the report is true,
+    None          the report does not decide the closure's result in a recognised way."""
+    ret_ty = c.locals[0].get('ty') or ''
+    defs0 = [st for _, _, st in c.stmts() if st['k'] == 'assign' and st['lhs']['l'] == 0]
+    calls0 = [t for _, t in c.calls() if t['dest']['l'] == 0]
+    cp = _r11_copies(c, {loc_})
+    if ret_ty == 'bool':
+        if calls0 or not defs0:
+            return None
+        for st in defs0:
+            if not Q.is_plain(st['lhs']):
+                return None
+            if _r11_reads_report(st):
+                continue
+            pl = Q.operand_place(st['rv']['o']) if st['rv']['k'] == 'use' else None
+            if pl is None or not Q.is_plain(pl) or pl['l'] not in cp:
+                return None
+        return 'filter'
+    if ret_ty.startswith('core::option::Option<'):
+        # `if report { Some(parent) } else { None }`
+        if true_targets:
+            some = {blk for blk, _, st in c.stmts() if st['k'] == 'assign' and st['lhs']['l'] == 0 and Q.is_plain(st['lhs'])
+                    and st['rv']['k'] == 'agg' and (st['rv'].get('adt') or '').endswith('option::Option') and st['rv'].get('variant') == 'Some'}
+            # the Some must be the value returned: no later assignment of the result on the way out
+            other = {blk for blk, _, st in c.stmts() if st['k'] == 'assign' and st['lhs']['l'] == 0 and blk not in some} | \
+                    {t['to'] for _, t in c.calls() if t['dest']['l'] == 0 and t.get('to') is not None}
+            if some and all(Q.must_pass(c, [tgt], some) is None for tgt in true_targets) and \
+                    all(c.shortest_path(sb, set(other)) is None for sb in some if other):
+                return 'filter_map'
+            return None
+        # `report.then_some(parent)` / `report.then(|| parent)`
+        for t in calls0:
+            if Q.callee_is(t, [re.compile(r'^core::bool::<impl bool>::then(_some)?$'), re.compile(r'(^|::)bool::then(_some)?$')]) and t['a']:
+                pl = Q.operand_place(t['a'][0])
+                if pl is not None and Q.is_plain(pl) and pl['l'] in cp and len(calls0) == 1 and not defs0:
+                    return 'filter_map'
+    return None
+
+
+def _r11_closure_report(F, c, loc_, true_targets, notify_pats):
+    """The report is read inside the closure `c`. A closure belongs to the function that creates it: when the closure selects the
+    elements of an iterator (filter / filter_map) by the report, the elements that survive are the processes whose state changed,
+    so the 'true edge' of the report is the Some edge of the `next()` of the chain built over that adapter (or the body of its
+    for_each). Returns (verdict, text): verdict True = every consumer of the selected elements raises SIGCHLD, False = one does
+    not, None = the shape is not recognised."""
+    kind = _r11_selector_kind(c, loc_, true_targets)
+    if kind is None:
+        return None, 'the report does not decide the result of the closure in a recognised way'
+    parent_fn = re.sub(r'::\{closure#\d+\}$', '', c.fn)
+    if parent_fn == c.fn or parent_fn not in F.bodies:
+        return None, 'the function that creates the closure was not found'
+    P = F.bodies[parent_fn]
+    made = [st['lhs']['l'] for _, _, st in P.stmts() if st['k'] == 'assign' and st['rv']['k'] == 'agg' and st['rv'].get('ak') == 'closure'
+            and st['rv'].get('def') == c.fn and Q.is_plain(st['lhs'])]
+    if len(made) != 1:
+        return None, 'the creation of the closure was not found in %s' % parent_fn
+    holders = _r11_copies(P, set(made))
+    adapters = [(blk, t) for blk, t in P.calls() if any(Q.operand_local(a) in holders for a in t['a'][1:])]
+    if not adapters or not all(Q.callee_is(t, _R11_SELECTORS[kind]) for _, t in adapters):
+        return None, 'the closure is not handed to Iterator::%s (and only to it)' % kind
+    notify = {nb for nb, _ in Q.find_calls(P, notify_pats)}
+    verdicts = []
+    for _, at in adapters:
+        chain = Q.forward_taint(P, {at['dest']['l']})
+        for blk, t in P.calls():
+            if not t['a'] or Q.operand_local(t['a'][0]) not in chain:
+                continue
+            if Q.callee_is(t, _R11_NEXT):
+                d = t['dest']['l']
+                for u in P.live_blocks():
+                    sw = P.term(u)
+                    if sw['k'] != 'switch':
+                        continue
+                    dl = (Q.operand_place(sw['d']) or {}).get('l')
+                    is_d = any(st['k'] == 'assign' and st['lhs']['l'] == dl and st['rv']['k'] == 'discr' and st['rv']['pl']['l'] == d
+                               and Q.is_plain(st['rv']['pl']) for _, _, st in P.stmts())
+                    if not is_d:
+                        continue
+                    some = [tgt for v, tgt in sw['ts'] if str(v) == '1']
+                    if not some:
+                        verdicts.append((None, 'next() at %s: no Some edge found' % P.loc(t)))
+                    for tgt in some:
+                        # one element = one process whose state changed: SIGCHLD before the next element is fetched / the function returns
+                        goals = set(P.return_blocks()) | {blk}
+                        ok = Q.must_pass(P, [tgt], notify, goals) is None
+                        verdicts.append((ok, 'loop over the selected elements at %s' % P.loc(t)))
+            elif Q.callee_is(t, _R11_FOR_EACH) and len(t['a']) == 2:
+                cl = [st['rv'].get('def') for _, _, st in P.stmts() if st['k'] == 'assign' and st['rv']['k'] == 'agg' and st['rv'].get('ak') == 'closure'
+                      and st['lhs']['l'] in _r11_copies_back(P, Q.operand_local(t['a'][1]))]
+                if len(cl) == 1 and cl[0] in F.bodies:
+                    fb = F.bodies[cl[0]]
+                    fn_notify = {nb for nb, _ in Q.find_calls(fb, notify_pats)}
+                    verdicts.append((Q.must_pass(fb, [0], fn_notify) is None, 'for_each over the selected elements at %s' % P.loc(t)))
+                else:
+                    verdicts.append((None, 'for_each at %s: closure not found' % P.loc(t)))
+    if not verdicts:
+        if not notify:
+            return False, '%s selects the processes whose state changed and never raises SIGCHLD' % parent_fn
+        return None, 'no loop / for_each over the elements selected by Iterator::%s found in %s' % (kind, parent_fn)
+    if any(v is None for v, _ in verdicts):
+        return None, '; '.join(w for v, w in verdicts if v is None)
+    bad = [w for v, w in verdicts if not v]
+    if bad:
+        return False, '; '.join(bad)
+    return True, 'Iterator::%s by the report in %s; %s' % (kind, parent_fn, '; '.join(w for _, w in verdicts))
+
+
+def _r11_copies_back(P, local):
+    """locals `local` is an unmodified copy of (itself included)"""
+    s = {local}
+    changed = True
+    while changed:
+        changed = False
+        for _, _, st in P.stmts():
+            if st['k'] == 'assign' and Q.is_plain(st['lhs']) and st['lhs']['l'] in s and st['rv']['k'] == 'use':
+                pl = Q.operand_place(st['rv']['o'])
+                if pl is not None and Q.is_plain(pl) and pl['l'] not in s:
+                    s.add(pl['l'])
+                    changed = True
+    return s
+
+
+
 # ---------------------------------------------------------------------------------------
 # added after seed wave 4 (C13-s8: the simulated sigmask no longer told the parent that the caller was stopped / killed)
 @RS.rule('C13.R11', 'K-PASS+K-SIBLING', 'a child that stops or dies is always reported to its parent: every operation of the simulated kernel that can change '
@@ -1187,6 +1341,18 @@ def r11(cx):
                     if tgt_true is not None:
                         true_targets.append(tgt_true)
                 ok = bool(true_targets) and all(Q.must_pass(b, [tgt], notify) is None for tgt in true_targets)
+                # (a function none of whose bodies raises SIGCHLD cannot act on the report anywhere: the plain verdict below stands)
+                if not ok and b.fn != b.root and not notify and not b.d.get('coroutine') and any(Q.find_calls(x, NOTIFY) for x in bodies):
+                    # the report is consumed inside a closure: it is acted upon where the function that creates the closure
+                    # consumes what the closure selects (filter / filter_map over the results, then the SIGCHLD pass)
+                    verdict, text = _r11_closure_report(F, b, loc_, true_targets, NOTIFY)
+                    recognised = verdict is not None or not (0 in tl or true_targets)
+                    cx.require(recognised, 'C13.R11: %s reads the state-change report inside a closure and hands it on in a shape that is '
+                               'not analysed (%s): no verdict' % (b.fn, text))
+                    if verdict is not None:
+                        cx.site('%s: state-change report at %s read inside a closure: %s: %s' % (b.fn, where, text, verdict))
+                        handled.setdefault(src, []).append((verdict, True, where))
+                        continue
                 cx.site('%s: state-change report at %s: parent notified (raise_sigchld) on every path after the report is true: %s'
                         % (b.fn, where, ok))
                 handled.setdefault(src, []).append((ok, bool(true_targets), where))
